@@ -510,6 +510,102 @@ def real_pipe_runs(chk):
             _quiet(c.close)
 
 
+def concurrent_end_runs(chk):
+    """two threads of one side end the connection at once: thread A is stopped before each statement of close() / _cleanup()
+    (reached through an explicit close() or through serve() meeting end-of-stream) while the main thread runs close() to
+    completion; afterwards: no exception from either, the hook ran exactly once, the side is closed"""
+    import threading
+    import time
+    import rpyc
+    from rpyc.core.protocol import Connection
+    from rpyc.core.stream import PipeStream
+    from harness import linepause as lp
+    n = 0
+    try:
+        for func in (Connection.close, Connection._cleanup):
+            for (ln, text) in lp.lines_of(func):
+                for how in ("close", "eof-in-serve", "peer-close-request"):
+                    hooks, errs = [], []
+
+                    class Svc(rpyc.Service):
+                        def on_disconnect(self, conn):
+                            hooks.append(1)
+                    s1, s2 = PipeStream.create_pair()
+                    c1 = rpyc.connect_stream(s1, Svc)
+                    c2 = rpyc.connect_stream(s2, rpyc.VoidService)
+
+                    def a():
+                        try:
+                            if how == "close":
+                                c1.close()
+                            else:
+                                c1.serve(2)
+                        except EOFError:
+                            pass
+                        except Exception as ex:  # noqa
+                            errs.append("thread A: %r" % (ex,))
+                    bp = lp.arm(func, ln, thread_filter=lambda th: th.name == "verif-A")
+                    t = threading.Thread(target=a, daemon=True, name="verif-A")
+                    t.start()
+                    if how == "eof-in-serve":
+                        time.sleep(0.02)
+                        s2.close()
+                    elif how == "peer-close-request":
+                        time.sleep(0.02)
+                        threading.Thread(target=lambda: _quiet(c2.close), daemon=True).start()
+                    hit = bp.wait_hit(1.0)
+                    if not hit:
+                        # thread A never came to this statement: nothing to interleave (and no second close() while it polls)
+                        bp.release()
+                        lp.disarm_all()
+                        if how == "close":
+                            t.join(3)
+                        for c in (c2, c1):
+                            _quiet(c.close)
+                        t.join(3)
+                        chk.evaluated()
+                        n += 1
+                        continue
+                    done = threading.Event()
+
+                    def b():
+                        try:
+                            c1.close()
+                        except Exception as ex:  # noqa
+                            errs.append("second close(): %r" % (ex,))
+                        done.set()
+                    tb = threading.Thread(target=b, daemon=True)
+                    tb.start()
+                    done.wait(0.3)                # it may have to wait for the thread that is stopped inside the clean-up
+                    bp.release()
+                    t.join(3)
+                    tb.join(3)
+                    lp.disarm_all()
+                    chk.evaluated()
+                    n += 1
+                    chk.distinct(("concurrent-end", func.__name__, text, how))
+                    bad = None
+                    if t.is_alive() or tb.is_alive():
+                        bad = ("hang", "a thread never returned")
+                    elif errs:
+                        bad = ("raised", "; ".join(errs))
+                    elif len(hooks) != 1:
+                        bad = ("hook", "the disconnect hook ran %d times" % len(hooks))
+                    elif not c1.closed:
+                        bad = ("not-closed", "the side does not report closed")
+                    if bad:
+                        chk.violation("concurrent-end:%s:%s" % (bad[0], how), "C11 [two threads of one side end the connection at once: one "
+                                      "stopped before `%s` (%s, reached by %s), the other calls close()] %s" % (text, func.__name__, how, bad[1]),
+                                      {"workload": "concurrent-end", "func": func.__name__, "text": text, "how": how})
+                    else:
+                        chk.validated()
+                    for c in (c1, c2):
+                        _quiet(c.close)
+    finally:
+        lp.shutdown()
+    chk.cov["concurrent_end_scenarios"] = n
+
+
 def _quiet(f):
     try:
         f()
@@ -569,6 +665,7 @@ def main():
         gc.collect()
     chk.cov["fault_positions"] = total_pos
     real_pipe_runs(chk)
+    concurrent_end_runs(chk)
     # a connection shared by threads (RpycServe's setting): the peer vanishes at an arbitrary moment
     from harness.drivers import serve_common as svc
 
